@@ -7,6 +7,31 @@ BASELINE = "cd /repo && /venv/bin/python -m pytest -ra -q -p no:cacheprovider --
 
 # id -> (level category, engine, technique, level text, level note, design ref)
 CLAIMS = {
+    "C04": ("model_checking", "Wire,MC_Wire,Gen_Wire,Trace_Wire",
+            "TLC model checking of Wire.tla (argument binding -> request, as-is and fixed variants) + TLC-generated operations called on real generated clients over httpx.MockTransport; TLA+ trace monitor (ExpectedRequest)",
+            "Wire.tla defines ExpectedRequest(op, args) and an implementation-shaped binding machine (path/query/header/cookie/body, multi-content dispatch); the design run lists the specification-level deviations, the fixed variant satisfies RequestOK; ~1.5k stratified operations (methods x parameter location/type/name shape/level x body kinds) are generated, every method is called with distinct-token arguments for up to 8 subsets of the optional arguments and the captured requests are judged by Trace_Wire.tla",
+            "trusts TLC, httpx.MockTransport as the wire, folded-name + value-flow mapping of python arguments to declared parameters",
+            "DESIGN.md section 4 C04; docs/C04_NOTES.md"),
+    "C05": ("model_checking", "Reply,MC_Reply,Gen_Reply,Trace_Reply",
+            "TLC model checking of Reply.tla (primary-response selection in both code copies, per-status / per-content-type dispatch; as-is and fixed variants) + TLC-generated scenarios served to real generated clients by a fake server; TLA+ trace monitor (ExpectedReply)",
+            "Reply.tla defines ExpectedReply and mirrors response_strategy / response_handler_generator; declared sets x content types x body shapes are enumerated, generated, and each declared 2xx response is served (JSON, text, bytes, SSE, NDJSON, chunked) to the generated method; returned values / stream items are re-serialised independently and judged by Trace_Reply.tla",
+            "trusts TLC, httpx.MockTransport as server, independent re-serialisation in obs_wire.jsonable",
+            "DESIGN.md section 4 C05; docs/C05_NOTES.md"),
+    "C07": ("model_checking", "Surface,MC_Surface,Gen_Surface,Trace_Surface",
+            "TLC model checking of the tag-grouping rules (MC_Surface, as-is vs fixed) + TLC-generated documents (tags x operationId shapes x strategies x renderings); methods mapped to operations by the request they send; TLA+ monitor (ExpectedClients)",
+            "Surface.tla defines ExpectedClients; ~1.5k documents (<=4 operations, tag assignments incl. spelling variants and reserved names, operationId shapes incl. colliding / pre-suffixed / FastAPI style, 3 strategies, JSON and YAML with bare numeric keys) are generated; every client method is called once and mapped to the (method, path) it requests; Trace_Surface.tla judges reachability, uniqueness, collapse, naming and silent drops",
+            "trusts TLC, wire behaviour as method-operation mapping, warnings captured from generation",
+            "DESIGN.md section 4 C07; docs/C07_C13_NOTES.md"),
+    "C13": ("model_checking", "Surface,MC_Surface,Gen_Surface,Trace_Surface",
+            "same document family and design model as C07; client / Protocol / mock surfaces compared by inspect.signature and ast; mocks called; TLA+ monitor (Parity)",
+            "for every generated package the tag clients, their Protocols and mocks are compared method by method (names, parameter sequence, kinds, defaults, annotations, return annotation, coroutine / async-generator nature), mocks are called (NotImplementedError), MockAPIClient properties are compared with APIClient's, isinstance against the runtime-checkable Protocols is evaluated; Trace_Surface.tla (Prop = C13) judges",
+            "trusts TLC, inspect/ast as observers; packages whose mocks do not import are skipped (C01)",
+            "DESIGN.md section 4 C13; docs/C07_C13_NOTES.md"),
+    "C14": ("model_checking", "UnionCodec,MC_Union,Trace_Union",
+            "TLC model checking of UnionCodec.tla (code-shaped ImplChoose against the reference ChooseVariant over all unions of 2..3 variants x payloads) + the same pairs replayed on the real converter (make_dataclass and generated aliases); TLA+ trace monitor",
+            "UnionCodec.tla enumerates object variants over fields {a,b,c} x {absent, optional, required}, primitive / list / map / nullable variants, unions in every order with / without discriminator and mapping, and conforming payloads of every variant; the design check yields the lossy / coercion relation; ~89k (union, payload) pairs are decoded by the real converter as field, list item and top-level type (plus ~200 unions from real generation) and judged by Trace_Union.tla",
+            "trusts TLC, make_dataclass variants in the shape the generator emits, fresh converter state per union",
+            "DESIGN.md section 4 C14; docs/C14_NOTES.md"),
     "C11": ("model_checking", "SharedCore,Gen_SharedCore,Trace_SharedCore",
             "TLC model checking of SharedCore.tla (exception registry across generation histories) + the tree of all histories replayed with real generations into one sandbox project, imports checked after every step; TLA+ trace monitor",
             "SharedCore.tla (registry, aliases, needs, generated; SharedDetected = the code's path heuristic) is model-checked for 3 clients x code sets x force x core depth 0..3 x histories <=4 (Served / NeverShrinksNeeded per depth); every history <=3 over 2 clients (thorough <=4 over 3) is replayed with real generate calls; after each step a generator-less interpreter imports every client generated so far and resolves every name its endpoints take from the core; Trace_SharedCore.tla judges and the projected real state is compared with the specification's successor state",
